@@ -96,8 +96,10 @@ enum Ev {
 // ------------------------------------------------------------------------------------------------
 static GO: [AtomicU32; MAXT] = [const { AtomicU32::new(0) }; MAXT];
 static BACK: AtomicU32 = AtomicU32::new(0);
-static SPIN: AtomicUsize = AtomicUsize::new(200);
+static SPIN: AtomicUsize = AtomicUsize::new(20000);
 static ALLOC: AtomicUsize = AtomicUsize::new(0);
+static T_SNAP: AtomicUsize = AtomicUsize::new(0);
+static T_GRANT: AtomicUsize = AtomicUsize::new(0);
 static EVENTS: Mutex<Vec<Ev>> = Mutex::new(Vec::new());
 static NEXT_CALL: Mutex<[Option<CallSpec>; MAXT]> = Mutex::new([None; MAXT]);
 static THREADS: Mutex<Vec<Thread>> = Mutex::new(Vec::new());
@@ -406,8 +408,8 @@ fn builtin() -> Vec<Scenario> {
         // the tree-order get fails on entry 1 and undoes entry 0
         add("getT-get9h1", false, 1, vec![], vec![vec![Get(0, to)], vec![Get(rows_h, ho)]]);
         add("getT-get0h1", false, 1, vec![], vec![vec![Get(0, to)], vec![Get(rows_h, 0)]]);
-        add("putT-getT", true, 1, vec![], vec![vec![Put(0, to)], vec![Get(0, to)]]);
-        add("putT-put9h1", true, 2, vec![], vec![vec![Put(0, to)], vec![Put(tf + hf, ho)]]);
+        add("putT-getT", false, 1, vec![Get(0, to)], vec![vec![Put(0, to)], vec![Get(0, to)]]);
+        add("putT-put9t1", false, 2, vec![Get(0, to), Get(tf / 64, ho)], vec![vec![Put(0, to)], vec![Put(tf, ho)]]);
         add("split-put0-put9h1", true, 1, vec![], vec![vec![Put(5, 0)], vec![Put(hf, ho)]]);
         // first huge frame is full: both gets fall through to the second child
         add(
@@ -421,7 +423,7 @@ fn builtin() -> Vec<Scenario> {
     if TREE_HUGE >= 4 {
         add("get10-get10", false, 1, vec![], vec![vec![Get(0, ho + 1)], vec![Get(0, ho + 1)]]);
         add("get10-get9h1", false, 1, vec![], vec![vec![Get(0, ho + 1)], vec![Get(rows_h, ho)]]);
-        add("put10-get10", true, 1, vec![], vec![vec![Put(0, ho + 1)], vec![Get(0, ho + 1)]]);
+        add("put10-get10", false, 1, vec![Get(0, ho + 1)], vec![vec![Put(0, ho + 1)], vec![Get(0, ho + 1)]]);
     }
     // --- three threads
     add("mix3-get0-get7-get9", false, 1, vec![], vec![vec![Get(0, 0)], vec![Get(0, 7)], vec![Get(0, ho)]]);
@@ -626,7 +628,17 @@ impl<'a> Exec<'a> {
                 k += 1;
             }
         } else {
-            self.hfail(format!("scenario frees a block that is not held: put {f} {o}"));
+            // a block made of several held blocks (the machine's client does not do this)
+            let inside: Vec<usize> =
+                (0..self.held.len()).filter(|&i| self.held[i].0 >= f && self.held[i].0 + (1 << self.held[i].1) <= f + (1 << o)).collect();
+            let total: usize = inside.iter().map(|&i| 1usize << self.held[i].1).sum();
+            if total == 1 << o {
+                for &i in inside.iter().rev() {
+                    self.held.remove(i);
+                }
+            } else {
+                self.hfail(format!("scenario frees a block that is not held: put {f} {o}"));
+            }
         }
     }
 
@@ -667,6 +679,11 @@ impl<'a> Exec<'a> {
         if !self.env.snapshots {
             return;
         }
+        let t0 = std::time::Instant::now();
+        self.snapshot2();
+        T_SNAP.fetch_add(t0.elapsed().as_nanos() as usize, Ordering::Relaxed);
+    }
+    fn snapshot2(&mut self) {
         let env = self.env;
         env.snap.zero();
         unsafe { std::ptr::copy_nonoverlapping(env.bufs.lower, env.snap.lower, env.bufs.lower_len) };
@@ -768,7 +785,9 @@ impl<'a> Exec<'a> {
         }
         self.sched.push(t as u8);
         self.cur = Some(t);
+        let t0 = std::time::Instant::now();
         grant(t, &self.env.threads);
+        T_GRANT.fetch_add(t0.elapsed().as_nanos() as usize, Ordering::Relaxed);
         let evs: Vec<Ev> = std::mem::take(&mut *EVENTS.lock().unwrap());
         let mut wrote = false;
         for ev in evs {
@@ -1211,7 +1230,7 @@ fn main() {
         }
         None => (0, 1),
     };
-    SPIN.store(args.num("spin", 200) as usize, Ordering::Relaxed);
+    SPIN.store(args.num("spin", 20000) as usize, Ordering::Relaxed);
     let max_frames = scns.iter().map(|s| s.frames).max().unwrap();
 
     // panics of the code under test: remember "<file>:<line> <message>" for the catching thread
@@ -1344,6 +1363,7 @@ fn main() {
         tot.steps as f64 / dt.max(1e-9)
     );
     if args.flag("verbose") {
+        eprintln!("  time in snapshots {:.3}s, in grant {:.3}s", T_SNAP.load(Ordering::Relaxed) as f64 / 1e9, T_GRANT.load(Ordering::Relaxed) as f64 / 1e9);
         for (n, c) in per {
             eprintln!("  {n}: {c}");
         }
